@@ -742,6 +742,16 @@ class Interp:
         """follow one projection on a value; returns the sub-value (no copy)"""
         k = proj[0]
         if k == "deref":
+            if isinstance(v, Tup) and v.name == "Slice" and isinstance(v.f[0], Ref):
+                # `*slice` (slice patterns index it): a view of the backing sequence
+                base = v.f[0].cell.v
+                for pr in v.f[0].path:
+                    base = self._walk(base, pr)
+                st, ln = z3.simplify(v.f[1].t), z3.simplify(v.f[2].t)
+                if not (z3.is_bv_value(st) and z3.is_bv_value(ln)):
+                    raise Unsupported("deref of a slice with symbolic bounds")
+                items = base.f if isinstance(base, Tup) else base.items
+                return Seq(items[st.as_long():st.as_long() + ln.as_long()])
             if not isinstance(v, Ref):
                 raise Unsupported(f"deref of non-reference {v}")
             t = v.cell.v
